@@ -37,13 +37,14 @@ type qeObs struct {
 }
 
 type world struct {
-	tr   *sched.Tracer
-	svc  *res.Service
-	conn *rconn.Conn
-	done chan error
-	obsP atomic.Pointer[qeObs] // current observations (replaced by reuseHistory while callbacks may run)
-	beh  map[string]string // request id -> callback behaviour (guarded by bmu: set by the driver, read by callbacks)
-	bmu  sync.Mutex
+	tr        *sched.Tracer
+	svc       *res.Service
+	conn      *rconn.Conn
+	done      chan error
+	obsP      atomic.Pointer[qeObs] // current observations (replaced by reuseHistory while callbacks may run)
+	beh       map[string]string     // request id -> callback behaviour (guarded by bmu: set by the driver, read by callbacks)
+	bmu       sync.Mutex
+	withQuery bool
 }
 
 func (w *world) obs() *qeObs { return w.obsP.Load() }
@@ -75,6 +76,7 @@ func listenerCount() int {
 func newWorld(seed int64, gated bool, dur time.Duration, failSub bool) *world {
 	w := &world{tr: sched.NewTracer(seed), beh: map[string]string{}}
 	w.obsP.Store(&qeObs{})
+	w.withQuery = seed%2 == 1
 	w.tr.AutoRoles = map[string]string{"ql.": "ql", "qx.": "timer"}
 	if gated {
 		w.tr.SetGated("ql.recv", "qx.enter", "qx.drained")
@@ -126,7 +128,12 @@ func (w *world) close() {
 // startQuery emits a query event from within the resource's group.
 func (w *world) startQuery() bool {
 	started := make(chan struct{})
-	err := w.svc.With("test.q", func(r res.Resource) {
+	// every other world sends its query events on a resource that itself has a query part
+	rid := "test.q"
+	if w.withQuery {
+		rid = "test.q?foo=bar"
+	}
+	err := w.svc.With(rid, func(r res.Resource) {
 		r.QueryEvent(func(qr res.QueryRequest) {
 			o := w.obs()
 			if atomic.LoadInt32(&o.busy) != 0 {
@@ -373,7 +380,7 @@ func randomHistory(seed int64, failSub bool) rec {
 		w.setBeh(id, behaviours[rng.Intn(len(behaviours))])
 		ids = append(ids, id)
 		w.sendReq(id)
-		time.Sleep(time.Duration(rng.Intn(int(dur)/2+1)))
+		time.Sleep(time.Duration(rng.Intn(int(dur)/2 + 1)))
 	}
 	time.Sleep(dur + 25*time.Millisecond)
 	return w.record(ids, failSub, true, fmt.Sprintf("random history seed %d failSub=%v behaviours=%v", seed, failSub, w.behString()))
